@@ -202,7 +202,69 @@ def state_blind_caches(ctx, modname, only_prefix):
                               [x for x in src if x != tg.attr]
                         if src and not any(h[2] == tg.attr and h[1] is fn for h in hits):
                             hits.append((mod, fn, tg.attr, src[0], n))
+        # early-return form: `if self.A is not None: return self.A` ... `self.A = f(self.fields)` later in the method
+        returned = set()
+        for st in ast.walk(fn):
+            if isinstance(st, ast.If):
+                attrs = {x.attr for x in ast.walk(st.test) if isinstance(x, ast.Attribute) and dotted(x.value) == "self"}
+                attrs |= {x.args[1].value for x in ast.walk(st.test) if isinstance(x, ast.Call) and isinstance(x.func, ast.Name) and x.func.id in ("getattr", "hasattr")
+                          and len(x.args) >= 2 and isinstance(x.args[1], ast.Constant) and isinstance(x.args[1].value, str) and dotted(x.args[0]) == "self"}
+                for b in st.body + st.orelse:
+                    if isinstance(b, ast.Return) and b.value is not None:
+                        for x in ast.walk(b.value):
+                            if isinstance(x, ast.Attribute) and dotted(x.value) == "self" and x.attr in attrs:
+                                returned.add(x.attr)
+        if returned:
+            for n in cfg.stmts(("stmt",)):
+                a = n.ast
+                if not isinstance(a, ast.Assign):
+                    continue
+                for tg in a.targets:
+                    if isinstance(tg, ast.Attribute) and dotted(tg.value) == "self" and tg.attr in returned:
+                        src = sorted(o[len("attr:self."):].split(".")[0] for o in origins(fn, n.id, a.value) if o.startswith("attr:self.") and not o.startswith("attr:self." + tg.attr))
+                        src = [x for x in src if x != tg.attr and not (x in mod.functions or ("%s.%s" % (qn.split(".")[0], x)) in mod.functions)] or \
+                              [x for x in src if x != tg.attr]
+                        if src and not any(h[2] == tg.attr and h[1] is fn for h in hits):
+                            hits.append((mod, fn, tg.attr, src[0], n))
     return looked, hits
+
+
+# Caches of the reference tree, confirmed by reading (module, method, attribute) -> why answering from them is right
+CONFIRMED_CACHES = {
+    ("hd", "raw_serialize", "_raw"): "an HD public key is never edited after construction (no method assigns network / depth / chain code / point); the "
+                                      "serialisation is built once",
+    ("tx", "value", "_value"): "the previous output an input spends is fixed by (prev_tx, prev_index); `network` only selects where it is fetched from",
+    ("tx", "script_pubkey", "_script_pubkey"): "as for value(): the previous output is fixed by (prev_tx, prev_index)",
+    ("tx", "fetch", "cls.cache"): "transactions are identified by their id, which is their hash: the network only selects the service asked",
+}
+
+
+def cache_obligation(ctx, modnames, what):
+    """MEMO over every module a property is anchored in: parameter-blind, table, copied and shared caches (memo_obligation) and
+    state-blind caches (a value computed from the object's fields, kept on first use and returned afterwards), minus the caches
+    of the reference tree that were confirmed by reading"""
+    out = []
+    for r in memo_obligation(ctx, modnames, what):
+        if r.status == "violation":
+            k = (r.key or "").split(":", 1)[-1]
+            m, f = r.anchor.split(":")[0], r.anchor.split(":")[1]
+            if (m, f, k) in CONFIRMED_CACHES:
+                continue
+        out.append(r)
+    looked = 0
+    for mn in modnames:
+        a, hits = state_blind_caches(ctx, mn, "")
+        looked += a
+        for mod, fn, attr, field, n in hits:
+            if (mn, fn.name, attr) in CONFIRMED_CACHES:
+                continue
+            out.append(ctx.bad("%s:%s" % (mn, fn.name), "`self.%s` keeps the value computed from `self.%s` on the first call and is returned afterwards without looking at "
+                                                        "the object again (%s)" % (attr, field, what), n.ast, mod, key="state-blind-cache:" + attr))
+    if not any(r.status != "ok" for r in out):
+        out = [r for r in out if r.status == "ok"][:1]
+        out.append(ctx.ok("+".join(modnames) + ":*", "no method answers from a value remembered from an earlier state of the object (%d methods inspected; %d confirmed caches of "
+                                                    "the reference tree exempt)" % (looked, len(CONFIRMED_CACHES)), key="state-memo"))
+    return out
 
 
 def state_memo_obligation(ctx, modname, only_prefix, what):
